@@ -451,6 +451,39 @@ def config_text(blocks):
     return busproc.make_config("@SOCK@", policy_xml=pm.render(blocks), limits=LIMITS)
 
 
+LAYOUTS = ["inline", "inline", "included", "included", "included-twice", "split"]
+_INC_HEAD = ('<!DOCTYPE busconfig PUBLIC "-//freedesktop//DTD D-Bus Bus Configuration 1.0//EN" '
+             '"http://www.freedesktop.org/standards/dbus/1.0/busconfig.dtd">\n<busconfig>\n')
+
+
+def config_layout(blocks, layout, incdir):
+    """The same policy in another file layout: <include> merges the included file's rules at the place of the element, in
+    file order, so WHERE a rule is written (main file, included file, a file included by an included file) must not change
+    any decision.  Writes the included files into incdir and returns the text of the main file."""
+    if layout == "inline":
+        return config_text(blocks)
+    os.makedirs(incdir, exist_ok=True)
+
+    def put(name, body):
+        path = os.path.join(incdir, name)
+        tmp = path + ".new"
+        with open(tmp, "w") as fh:
+            fh.write(_INC_HEAD + body + "</busconfig>\n")
+        os.rename(tmp, path)
+        return path
+    if layout == "included":
+        inc = put("policy.conf", pm.render(blocks))
+        return busproc.make_config("@SOCK@", policy_xml="", limits=LIMITS, extra="  <include>%s</include>" % inc)
+    if layout == "included-twice":
+        inner = put("policy-inner.conf", pm.render(blocks))
+        outer = put("policy-outer.conf", "  <include>%s</include>\n" % inner)
+        return busproc.make_config("@SOCK@", policy_xml="", limits=LIMITS, extra="  <include>%s</include>" % outer)
+    # split: the first blocks stay in the main file, the rest moves into an included file that follows them
+    k = max(1, len(blocks) // 2)
+    inc = put("policy-tail.conf", pm.render(blocks[k:]))
+    return busproc.make_config("@SOCK@", policy_xml=pm.render(blocks[:k]), limits=LIMITS, extra="  <include>%s</include>" % inc)
+
+
 def gen_script(rng, sid, users, tier):
     """Skeleton of one daemon lifetime: clients, value pools and 1..3 stages (configurations); the
     probes are generated while executing, against the observed state, and recorded into it."""
@@ -661,7 +694,10 @@ class Scn(object):
         st = self.script["stages"][si]
         self.si = si
         self.blocks = st["blocks"]
-        text = config_text(self.blocks)
+        import zlib
+        layout = LAYOUTS[zlib.crc32(("%s:%d" % (self.script["id"], si)).encode()) % len(LAYOUTS)]
+        text = config_layout(self.blocks, layout, os.path.join(self.rundir, self.script["id"], "inc%d" % si))
+        self.part.count("config-layout:" + layout)
         if st["mode"] == "fresh":
             self.daemon = busproc.Daemon(self.b, os.path.join(self.rundir, self.script["id"]), text, name="bus")
             if not self.daemon.started():
